@@ -586,10 +586,12 @@ def main(tier, replay=None):
         "evaluations": n_cases, "distinct_nontrivial": distinct,
         "rule": "case = (flags, owner kind / hierarchy shape, setter/deleter/preparer pool ids, initial state, operation list); "
                 "spec_property: 16 flag combinations x {plain, spec unmanaged, managed, managed+preparer} x EVERY sequence of "
-                "length 4 (quick) / 5 (thorough) over {read, assign 10, delete, x=4, x=8} plus sampled sequences of length <= 4 / <= 7 "
-                "over the full pools (5 owner kinds incl. invalidated_by, fget absent, allow_attribute_error, sentinels, ill-typed values, "
+                "length 4 (quick) / 5 (thorough) over {read, assign v, delete, two state changes} where v and the getter results include None "
+                "(plain/unmanaged: assign None, x=7 makes the getter return None), the falsy int 0 (managed) and a truthy value "
+                "(managed+preparer; plain/unmanaged one step shorter) plus sampled sequences of length <= 4 / <= 7 "
+                "over the full pools (5 owner kinds incl. invalidated_by, fget absent, allow_attribute_error, None / 0 / '' / [] as overrides, getter results and private-field values, sentinels, ill-typed values, "
                 "raising getter/setter/deleter/preparer); classproperty: 32 flag combinations x 2 hierarchy shapes x every sequence of "
-                "length 2 (quick; thorough adds every third sequence of length 3) over 14 operations on three classes plus sampled sequences of length <= 4 / <= 7; distinct = distinct case tuples; "
+                "length 2 (quick; thorough adds every third sequence of length 3) over 14 operations on three classes (assignments of None, 0 and 12; a state change that makes the getter return None) plus sampled sequences of length <= 4 / <= 7; distinct = distinct case tuples; "
                 "every case has >= 1 operation; after EVERY operation outcome, stored entry, underlying state and getter call count are compared",
         "samples": [dict(kind="sp", case=sp[0]), dict(kind="sp", case=sp[-1]), dict(kind="cp", case=cp[0]), dict(kind="cp", case=cp[-1])],
         "exhaustive": False,
